@@ -131,6 +131,11 @@ def configs(tier):
                 paths = 2 + sum(1 + sum(1 for t in taps if t <= i) for i in range(1, n + 1))
                 if paths <= 3 * nblocks:
                     out.append(dict(notchain=(n, taps)))
+    # values that compare equal but are distinguishable (1 / True / 1.0 ...): whatever a block
+    # shows at idle, its successors were computed from exactly that
+    for table in ((1, True, 1.0, 2, 2.0), (0, False, 0.0, -0.0, ''), ((1,), (True,), (1.0,), (), [])):
+        for depth in (1, 2, 3):
+            out.append(dict(typed=(table, depth)))
     return out
 
 
@@ -420,8 +425,59 @@ def run_notchain(cfg, acc):
     return acc
 
 
+def run_typed(cfg, acc):
+    table, depth = cfg['typed']
+    n = len(table)
+
+    def show(v):
+        return f"{type(v).__name__}:{v!r}"
+    for perm in itertools.permutations(range(depth + 2)):
+        for start in range(n):
+            viol = []
+            with Sim() as sim:
+                nets.install_rank_hash()
+                src = edzed.Input('src', initdef=start)
+                p = edzed.FuncBlock('p', func=lambda a: table[a]).connect(src)
+                chain = [p]
+                for j in range(depth):
+                    chain.append(edzed.FuncBlock(f'q{j}', func=lambda a: a).connect(chain[-1]))
+                chain.append(edzed.FuncBlock('shown', func=show).connect(chain[-1]))
+                nets.set_ranks(chain, perm)
+
+                async def driver():
+                    task = asyncio.create_task(sim.circuit.run_forever())
+                    await sim.circuit.wait_init()
+                    # a walk through all ordered pairs of table rows, beginning at `start`
+                    walk = [b for a in range(n) for b in (a, (a + 1 + start) % n)] + list(range(n)) + list(range(n - 1, -1, -1))
+                    for idx in walk:
+                        edzed.ExtEvent(src).send(idx)
+                        await sim.loop.idle()
+                        if task.done():
+                            viol.append(('stable-network-aborted', f"typed chain {table}: {sim.circuit.error!r}"))
+                            break
+                        outs = [b.output for b in chain]
+                        bad = [j for j in range(1, depth + 1) if show(outs[j]) != show(outs[j - 1])]
+                        if outs[0] != table[idx] or bad or outs[-1] != show(outs[-2]):
+                            viol.append(('idle-but-inconsistent',
+                                         f"chain src -> p=table[src] -> {depth} x identity -> shown=type:repr, "
+                                         f"table {table}, rank order {perm}: idle after src={idx} with outputs "
+                                         f"{[show(o) for o in outs[:-1]]}, shown={outs[-1]!r}"))
+                            break
+                    await stop(sim.circuit)
+                    task.exception() if task.done() and not task.cancelled() else None
+                sim.run(driver())
+            acc.execs += 1
+            acc.outcome(('typed', repr(table), depth, perm, start, bool(viol)))
+            acc.state(('typed', repr(table), depth))
+            for sig, msg in viol:
+                acc.violation(f"C10:{sig}", msg, cfg=cfg)
+    return acc
+
+
 def run_config(cfg):
     acc = Acc()
+    if 'typed' in cfg:
+        return run_typed(cfg, acc)
     if 'cascade' in cfg:
         return run_cascade(cfg, acc)
     if 'notchain' in cfg:
